@@ -648,6 +648,10 @@ def f4_defs(tier):
     t["with"] = {"items": "<% ctx(xs) %>", "concurrency": 1}
     out.append(("items-n3-k1-beside-remediated", WF({"t": t, "s": T([N(F, "h")]), "h": T()}, input=["xs", "k"]),
                 {"xs": [0, 1, 2], "k": 1}))
+    # a with-items task downstream of a plain task (rerun of the upstream task re-enters it)
+    t = T(action="core.echo", input={"message": "<% item() %>"})
+    t["with"] = {"items": "<% ctx(xs) %>", "concurrency": 2}
+    out.append(("items-after-prep", WF({"prep": T([N(S, "t")]), "t": t}, input=["xs", "k"]), {"xs": [0, 1], "k": 2}))
     # repeated item values
     t = T(action="core.echo", input={"message": "<% item() %>"})
     t["with"] = {"items": "<% ctx(xs) %>", "concurrency": 2}
@@ -748,7 +752,7 @@ def f5_defs(tier):
                     "a": T([N(S, ["b0", "b1"])]),
                     "b0": T([N(S, "j")]),
                     "b1": T([N(S, "j")]),
-                    "j": T(join=1, retry={"count": 1}),
+                    "j": T(join=1, retry={"count": 1, "delay": 7}),
                 },
             ),
         )
@@ -900,6 +904,30 @@ def f6_defs(tier):
         "a": T([N(S, ["c", "fail"])]),
         "c": T([N(S, "noop", publish=[("report", "cleaned")])])},
         output=[{"report": "<% ctx(report) %>"}]), S_ONLY))
+    # a dictionary value superseded by a scalar, a list and null
+    out.append(("dict-then-scalar", WF({
+        "a": T([N(S, "b", publish=[("x", {"code": 503, "msg": RES})])]),
+        "b": T([N(S, "c", publish=[("x", "recovered"), ("y", None), ("z", [1, 2])])]),
+        "c": T()}, vars=[{"x": None}, {"y": {"k": 1}}, {"z": {"k": 2}}],
+        output=[{"x": "<% ctx(x) %>"}, {"y": "<% ctx(y) %>"}, {"z": "<% ctx(z) %>"}]), S_ONLY))
+    # a branch writes a variable three times, the last value equal to a common ancestor's
+    add("fj-republish-ancestor-value", {
+        "t0": T([N(S, ["a1", "b1"], publish=[("v", "on")])]),
+        "a1": T([N(S, "a2", publish=[("v", "off")])]),
+        "a2": T([N(S, "j", publish=[("v", "on")])]),
+        "b1": T([N(S, "j")]),
+        "j": T([N(S, "t")], join="all"), "t": T()})
+    # more than eight context entries before a join (index order vs publication order)
+    chain = {}
+    names = ["p1", "p2", "p3", "p4", "p5", "p6"]
+    for i, n in enumerate(names):
+        nxt = names[i + 1] if i + 1 < len(names) else ["a1", "b1"]
+        chain[n] = T([N(S, nxt, publish=[("k%d" % i, i)])])
+    chain["a1"] = T([N(S, "j", publish=[("w", "a")])])
+    chain["b1"] = T([N(S, "b2", publish=[("v", "old")])])
+    chain["b2"] = T([N(S, "j", publish=[("v", "new")])])
+    chain["j"] = T(join="all")
+    out.append(("fj-many-contexts", WF(chain, vars=V, output=OUT), S_ONLY))
     # a later sibling transition reads a variable an earlier sibling transition publishes (no leak between them)
     out.append(("sibling-reads-sibling", WF({
         "a": T([N(S, "b", publish=[("v", RES)]), N(S, "c", publish=[("u", "<% ctx(v) %>")])]),
@@ -1028,6 +1056,8 @@ BAD_EXPRS = {
     "zero_division": {"yaql": "<% 1 / (ctx(n) - 1) %>", "jinja": "{{ 1 / (ctx('n') - 1) }}"},
 }
 
+RAW_BLOCK = {"jinja": "{% raw %}x{% endraw %}{{ ctx('d').nokey }}"}
+
 WRONG_RESULT = {"yaql": "<% ctx(s2) %>", "jinja": "{{ ctx('s2') }}"}  # evaluates to the text "2"
 
 FX_POSITIONS = (
@@ -1097,6 +1127,11 @@ def fx_all(tier):
                 wf, trig = fx_host(pos, expr)
                 meta = {"trigger": trig, "position": pos, "kind": kind, "lang": lang}
                 out.append(scn("FX/%s-%s-%s" % (pos, kind, lang), wf, "FX", meta=meta))
+    # Jinja text that combines a raw block with an expression that fails
+    for pos in ("task_input", "publish", "vars", "output", "input"):
+        wf, trig = fx_host(pos, RAW_BLOCK["jinja"])
+        meta = {"trigger": trig, "position": pos, "kind": "raw_block_missing_key", "lang": "jinja"}
+        out.append(scn("FX/%s-raw_block-jinja" % pos, wf, "FX", meta=meta))
     # the expression evaluates fine but yields text where an integer / list is needed
     for pos in ("concurrency", "delay", "retry_count", "retry_delay", "items"):
         for lang, expr in WRONG_RESULT.items():
@@ -1215,6 +1250,15 @@ def graph_shapes(tier):
     # comma separated do string that repeats a target
     out.append(("G/do-string-repeats-target", WF({
         "a": T([N(S, "b, c, b")]), "b": T([N(S, "d")]), "c": T(), "d": T()})))
+    # declared retry spec with a delay plus the retry command: the command's policy replaces the spec
+    out.append(("G/retry-spec-and-command", WF({
+        "a": T([N(F, "retry"), N(S, "b")], retry={"count": 2, "delay": 30, "when": F}), "b": T()})))
+    # task names with underscores whose concatenations collide (a_b -> c and a -> b_c) below a split task
+    out.append(("G/underscore-names", WF({
+        "r0": T([N(S, "s")]), "r1": T([N(S, "s")]),
+        "s": T([N(S, ["a_b", "a"])]),
+        "a_b": T([N(S, "c")]), "a": T([N(S, "b_c")]),
+        "c": T([N(S, ["d", "noop"])], retry={"count": 1}), "b_c": T([N(S, "e")]), "d": T(), "e": T()})))
     # retry command beside other targets; join: 0
     out.append(("G/retry-with-targets", WF({
         "a": T([N(F, ["cleanup", "retry"]), N(S, "b")]), "b": T(), "cleanup": T()})))
@@ -1243,6 +1287,7 @@ INLINE_VALUES = [
     ("'say \"hi\"'", 'say "hi"'), ('"it\'s"', "it's"), ("'\"x\"'", '"x"'), ("'a \"b\" c'", 'a "b" c'),
     ('"\'x\'"', "'x'"),
     ("'{\"name\": \"<% ctx(x) %>\", \"size\": 9}'", {"name": "<% ctx(x) %>", "size": 9}),
+    ("'{\"Name\": \"Bob\", \"Content-Type\": \"Text\"}'", {"Name": "Bob", "Content-Type": "Text"}),
 ]
 
 DELIMS = [" ", ", ", "; ", ","]
@@ -1304,6 +1349,18 @@ def c20_pairs(tier):
     out.append(("do-omitted", s, l))
     s, l = base({"action": "core.noop"}, {"action": "core.noop"}, "p=1", [{"p": 1}], None, ["continue"])
     out.append(("do-omitted-list", s, l))
+    # 4b. a transition with a condition only (neither publish nor do) means do: continue
+    def when_only(do):
+        n1 = {"when": "<% succeeded() %>"}
+        n2 = {"when": "<% succeeded() %>"}
+        if do is not None:
+            n1["do"] = do
+            n2["do"] = do
+        return {"version": 1.0, "tasks": {
+            "a": {"action": "core.noop", "next": [n1, {"when": "<% succeeded() %>", "do": "r"}]},
+            "b": {"action": "core.noop", "next": [n2, {"when": "<% succeeded() %>", "do": "r"}]},
+            "r": {"action": "core.noop"}}}
+    out.append(("do-whenonly", when_only(None), when_only("continue")))
     # 5. with: string vs mapping
     for w in ("<% ctx(xs) %>", "i in <% ctx(xs) %>", "a, b in <% zip(ctx(xs), ctx(ys)) %>", " i in <% ctx(xs) %> ",
               "{{ ctx('xs') }}", "i in {{ ctx('xs') }}"):
